@@ -109,7 +109,7 @@ class ServeManifest(RequestHandlerBase):
         response = self.check_for_synthetic_manifest_error(options, context)
         if response is not None:
             return response
-        body = flask.render_template(f'manifests/{manifest}', **context)
+        body = flask.render_template(f'manifests/{mft.name}.mpd', **context)
         try:
             max_age = int(math.floor(context["minimumUpdatePeriod"]))
         except KeyError:
@@ -171,7 +171,8 @@ class ServeMultiPeriodManifest(RequestHandlerBase):
         context = cast(ManifestTemplateContext, self.create_context(
             title=current_mps.title, mpd=dash, options=options,
             mode=mode))
-        body = flask.render_template(f'manifests/{manifest}', **context)
+        body = flask.render_template(
+            f'manifests/{current_manifest.name}.mpd', **context)
         try:
             max_age = int(math.floor(context["minimumUpdatePeriod"]))
         except KeyError:
@@ -284,7 +285,7 @@ class ServePatch(RequestHandlerBase):
             stream=current_stream,
             original_publish_time=original_publish_time))
 
-        body = flask.render_template(f'patches/{manifest}.xml', **context)
+        body = flask.render_template(f'patches/{mft.name}.xml', **context)
         try:
             max_age = int(math.floor(context["minimumUpdatePeriod"]))
         except KeyError:
